@@ -38,7 +38,9 @@ class Harness:
         self.name = name
         self.what = what            # one line: what is decided
         self.tier = tier            # "quick" => in both tiers, "thorough" => thorough only
-        self.cap = cap              # seconds
+        # seconds; the registry states the cap for an otherwise idle 16-core machine, the factor leaves
+        # room for a loaded or slower one (a timeout is reported as inconclusive, never as a pass)
+        self.cap = int(cap * float(os.environ.get("VERIF_CAP_FACTOR", "3")))
         self.mem_gb = mem_gb
         self.stubbing = stubbing
         self.unwindset = unwindset or {}
@@ -499,6 +501,10 @@ def run_property(prop, spec, tier, jobs=None):
                 "solver_s": r.get("solver_s"), "symex_steps": r.get("symex_steps"), "vccs": r.get("vccs")}
         if r.get("stubs"):
             samp["stubs"] = r["stubs"]
+        if r.get("covers_sat"):
+            samp["case_witnesses_satisfied"] = sorted(set(r["covers_sat"]))[:10]
+        if h.features:
+            samp["features"] = list(h.features)
         if r["outcome"] == "held":
             held += 1
         elif r["outcome"] == "inconclusive":
